@@ -574,9 +574,13 @@ def v2_noop_dict(e):
     return t in ("doc_string_stmt", "pass_stmt") or (t == "stmt" and not e.get("elements"))
 
 
-def v2_abstract(elements, consts):
+def v2_abstract(elements, consts, labels=None):
     """REAL expanded elements -> ClosedAst elements (python tuples), fail-closed: whatever slide()
-    does not handle as a primitive becomes ('composite', what)."""
+    does not handle as a primitive becomes ('composite', what).
+    `labels` = the REAL FlowConfig.element_labels: a Label element counts as a jump target only if
+    the index maps its name to its position (the model looks labels up by last occurrence, so the
+    model's table then equals the runtime's); an index entry that does not point to a Label of that
+    name is not representable and becomes a composite."""
     from nemoguardrails.colang.v2_x.runtime.flows import InternalEvents
     from nemoguardrails.colang.v2_x.lang.colang_ast import Spec
 
@@ -605,7 +609,10 @@ def v2_abstract(elements, consts):
             else:
                 out.append(("composite", "SpecOp:" + str(e.op)))
         elif cn == "Label":
-            out.append(("label", e.name))
+            if labels is None or labels.get(e.name) == len(out):
+                out.append(("label", e.name))
+            else:
+                out.append(("plain", "Label"))      # not (or no longer) in the label index: never a target
         elif cn == "Goto":
             out.append(("goto", e.label, e.expression != "True"))
         elif cn == "ForkHead":
@@ -632,6 +639,12 @@ def v2_abstract(elements, consts):
             out.append(("plain", cn))
         else:
             out.append(("composite", cn))
+    if labels is not None:
+        for name, idx in labels.items():
+            if not (isinstance(idx, int) and 0 <= idx < len(elements) and type(elements[idx]).__name__ == "Label"
+                    and elements[idx].name == name):
+                out.append(("composite", "bad-label-index"))
+                break
     return out
 
 
@@ -1172,6 +1185,146 @@ def v2_coq_stmts(tree):
     return C.coq_list(out)
 
 
+# ---- flows added at RUNTIME (AddFlowsAction -> RuntimeV2_x._add_flows_action): the other loader
+
+ADD_BASE = (FRAG_PRELUDE + "flow a ok\n  match EvA()\nflow b ok\n  match EvB()\nflow a fail\n  match EvF()\n  abort\n"
+            "flow b fail\n  match EvG()\n  abort\nflow c act\n  match EvC()\n  send Act()\nflow main\n  match Never()\n")
+
+
+def v2_added_source(src):
+    """The main flow of a generated program as a flow to be added at runtime."""
+    i = src.rfind("flow main")
+    return "flow added flow" + src[i + len("flow main"):]
+
+
+def v2_add_at_runtime(sources):
+    """Drive the REAL RuntimeV2_x._add_flows_action (the body of AddFlowsAction) with a real State, as
+    the action dispatcher does, for each (origin, flow source); yields (origin, source, flow_id, FlowConfig)
+    of every flow it put into state.flow_configs."""
+    import asyncio
+
+    from harness import v2util
+    from nemoguardrails.colang.v2_x.runtime.runtime import RuntimeV2_x
+
+    state = v2util.init_state(ADD_BASE)
+    base = set(state.flow_configs)
+    loop = asyncio.new_event_loop()
+    try:
+        for origin, src in sources:
+            try:
+                names = loop.run_until_complete(RuntimeV2_x._add_flows_action(None, state, config=src))
+            except Exception as e:  # the runtime loader rejects the source
+                yield origin, src, None, type(e).__name__ + ": " + str(e)[:100]
+                continue
+            for name in names:
+                yield origin, src, name, state.flow_configs[name]
+            for k in list(state.flow_configs):
+                if k not in base:
+                    del state.flow_configs[k]
+    finally:
+        loop.close()
+
+
+def v2_added_child(path):
+    """Child process: end-to-end confirmation - a bot whose main flow loads the flow through
+    AddFlowsAction and then awaits it; reports ColangError events, 'Invalid label' warnings of slide()
+    and whether the added flow's label index resolves its own labels."""
+    import logging
+
+    logging.disable(logging.CRITICAL)
+    sys.path.insert(2, os.path.join(C.REPO))
+    from nemoguardrails import RailsConfig
+    from nemoguardrails.colang.v2_x.runtime import statemachine as sm
+    from tests.utils import TestChat
+
+    import signal
+
+    class _JobTimeout(BaseException):
+        pass
+
+    def _on_alarm(signum, frame):
+        raise _JobTimeout()
+
+    signal.signal(signal.SIGALRM, _on_alarm)
+    jobs = json.load(open(path))
+    results = []
+    for job in jobs:
+        errors, warns = [], []
+        orig_push, orig_warn = sm._push_internal_event, sm.log.warning
+        signal.setitimer(signal.ITIMER_REAL, 20.0)
+
+        def rec(state, event, _o=orig_push):
+            if getattr(event, "name", None) == "ColangError":
+                errors.append([event.arguments.get("type"), str(event.arguments.get("error"))[:160]])
+            return _o(state, event)
+
+        def warn(msg, *a, **k):
+            if "Invalid label" in str(msg):
+                warns.append(strip_uid(str(msg) % a if a else str(msg))[:120])
+
+        sm._push_internal_event, sm.log.warning = rec, warn
+        status, outs, unindexed = "ok", [], None
+        try:
+            config = RailsConfig.from_content(
+                colang_content=ADD_BASE.replace("flow main\n  match Never()\n", "") +
+                'flow main\n  match UtteranceUserAction().Finished(final_transcript="start")\n'
+                "  $flows = await AddFlowsAction(config=$new_flow_content)\n  await added flow\n  send AddedFlowDone()\n  match Never()\n",
+                yaml_content='colang_version: "2.x"\n')
+            chat = TestChat(config, llm_completions=[])
+            chat.state.main_flow_state.context["new_flow_content"] = job["src"]
+            chat >> "start"
+            from nemoguardrails.utils import new_event_dict
+
+            pending = [{"type": ev} for ev in job.get("events", [])]
+            for _ in range(8):
+                if not chat.input_events:
+                    if not pending:
+                        break
+                    chat.input_events.append(pending.pop(0))
+                output_events, chat.state = chat.app.process_events(chat.input_events, chat.state)
+                chat.input_events = []
+                for event in output_events:
+                    outs.append(event["type"] + (":" + str(event.get("script")) if event["type"] == "StartUtteranceBotAction" else ""))
+                    if event["type"] == "StartUtteranceBotAction":
+                        chat.input_events.append(new_event_dict("UtteranceBotActionStarted", action_uid=event["action_uid"]))
+                        chat.input_events.append(new_event_dict("UtteranceBotActionFinished", action_uid=event["action_uid"],
+                                                                is_success=True, final_script=event["script"]))
+            st = chat.state
+            if st is not None and "added flow" in st.flow_configs:
+                fc = st.flow_configs["added flow"]
+                unindexed = sum(1 for i, e in enumerate(fc.elements)
+                                if type(e).__name__ == "Label" and fc.element_labels.get(e.name) is None)
+            else:
+                status = "not-added"
+        except BaseException as e:
+            status = "exc:" + type(e).__name__ + ":" + str(e)[:100]
+        finally:
+            signal.setitimer(signal.ITIMER_REAL, 0)
+            sm._push_internal_event, sm.log.warning = orig_push, orig_warn
+        results.append({"id": job["id"], "status": status, "errors": errors, "invalid_label_warnings": warns[:5],
+                        "labels_missing_from_index": unindexed, "outputs": outs[:12]})
+    json.dump(results, open(path + ".out", "w"))
+
+
+def v2_added_dynamic(jobs, timeout_s=240):
+    os.makedirs(os.path.join(C.BUILD, "c12"), exist_ok=True)
+    if not jobs:
+        return {}
+    p = os.path.join(C.BUILD, "c12", f"added_{os.getpid()}.json")
+    json.dump(jobs, open(p, "w"))
+    C.sh(["timeout", str(timeout_s), C.PY, "-c",
+          "import sys; sys.path.insert(0, %r); sys.path.insert(1, %r); "
+          "from harness import c12; c12.v2_added_child(%r)" % (C.VERIF, C.REPO, p)],
+         timeout=timeout_s + 30, env=C.impl_env())
+    res = {}
+    if os.path.exists(p + ".out"):
+        for x in json.load(open(p + ".out")):
+            res[x["id"]] = x
+        os.remove(p + ".out")
+    os.remove(p)
+    return res
+
+
 EVENTS = ["EvA", "EvB", "EvF", "EvG", "EvC", "EvX", "EvY", "EvZ"]
 # runtime errors of slide() that mean "not closed": a label lookup that fails (KeyError whose key
 # is a label name as expansion.py spells them), the two scope errors, pop from an empty handler stack
@@ -1522,7 +1675,7 @@ def run(tier, seed, replay=None):
                 continue
             rejected_flows += len(rej)
             for fid, cfg in ok_flows:
-                model = v2_abstract(cfg.elements, consts)
+                model = v2_abstract(cfg.elements, consts, cfg.element_labels)
                 prob = v2_oracle(cfg, consts)
                 key = (origin, fid)
                 flows_by_origin.setdefault(origin, []).append(fid)
@@ -1591,6 +1744,68 @@ def run(tier, seed, replay=None):
         payload = {"kind": "v2-source", "origin": origin, "flow": fid, "problem": prob, "source": src if len(src) < 20000 else src[:20000]}
         out.findings.append(C.Finding(sig, f"flow `{fid}` of {origin} is not closed: {prob['kind']} {prob['detail']} at element {prob['pos']}", payload))
 
+    # ---- flows added at RUNTIME through the real _add_flows_action (AddFlowsAction): same closedness
+    #      conditions on state.flow_configs[new] with ITS element_labels; verified checker + oracle
+    added_sources = []
+    for i, x in enumerate(_corpus("v2-added-source")):
+        added_sources.append((f"corpus-added:{i}", x["source"]))
+    if rp and rp.get("kind") == "v2-added-source":
+        added_sources.append(("replay-added", rp["source"]))
+    n_added = 0 if rp else (200 if quick else 3000)
+    pool = [(o, s_) for o, s_ in v2_sources if o.startswith(("frag:", "gen:"))]
+    for o, s_ in pool[:: max(1, len(pool) // max(1, n_added))][:n_added]:
+        added_sources.append(("added:" + o, v2_added_source(s_)))
+    a_terms, a_kept = [], []
+    added_rejected = 0
+    added_problems = {}
+    if consts is not None and added_sources:
+        for origin, src, name, cfg in v2_add_at_runtime(added_sources):
+            if name is None:
+                added_rejected += 1
+                continue
+            prob = v2_oracle(cfg, consts)
+            model = v2_abstract(cfg.elements, consts, cfg.element_labels)
+            a_terms.append(v2_coq(model))
+            a_kept.append((origin, name, src, model, prob))
+            if prob is not None:
+                added_problems[(origin, name)] = (prob, "v2:added-at-runtime:" + v2_sig(cfg, prob)[3:], src)
+    if okm and a_terms:
+        bools, err = C.run_cases(PID + "_added", PRE_V2, a_terms, "check_closed", shard=60)
+        if err:
+            out.add_broken("correspondence:C12-v2-added(coqc)", err)
+        else:
+            dis = [(o, n, m, pr, ok) for ok, (o, n, sr, m, pr) in zip(bools, a_kept) if ok != (pr is None)]
+            if dis:
+                o, n, m, pr, ok = min(dis, key=lambda c: len(c[2]))
+                out.add_broken("correspondence:C12-v2-added",
+                               f"{len(dis)} runtime-added flows where closedb and the python oracle differ; smallest {o} `{n}`: closedb={ok} oracle={pr}")
+    added_jobs = []
+    seen_added_sig = set()
+    for (origin, name), (prob, sig, src) in sorted(added_problems.items(), key=lambda kv: (0 if kv[0][0].startswith(("corpus", "replay")) else 1, len(kv[1][2]))):
+        if sig in seen_added_sig:
+            continue
+        seen_added_sig.add(sig)
+        out.findings.append(C.Finding(sig, f"flow `{name}` loaded at runtime through AddFlowsAction ({origin}) is not closed: {prob['kind']} {prob['detail']} at element {prob['pos']}",
+                                      {"kind": "v2-added-source", "origin": origin, "flow": name, "problem": prob, "source": src}))
+        added_jobs.append({"id": sig, "src": src, "events": []})
+    # end-to-end: a bot that loads the flow with AddFlowsAction and awaits it (corpus + flagged + a few others)
+    for origin, src in added_sources[: (3 if quick else 12)]:
+        if len(added_jobs) < (6 if quick else 24):
+            added_jobs.append({"id": "e2e:" + origin, "src": src, "events": ["EvA", "EvB"]})
+    added_e2e = v2_added_dynamic(added_jobs) if consts is not None else {}
+    e2e_bad = 0
+    for f in out.findings:
+        r = added_e2e.get(f.sig)
+        if r and isinstance(f.replay, dict):
+            f.replay["confirmed_on_interpreter"] = r
+            f.what += f"; real bot run: {r['labels_missing_from_index']} labels missing from element_labels, errors={r['errors'][:1]}, warnings={r['invalid_label_warnings'][:1]}"
+    for jid, r in added_e2e.items():
+        if jid.startswith("e2e:") and r["status"] == "ok" and (r["labels_missing_from_index"] or r["invalid_label_warnings"] or closedness_errors(r["errors"])):
+            e2e_bad += 1
+            if not added_problems:
+                out.findings.append(C.Finding("v2:added-at-runtime:e2e", f"bot run with AddFlowsAction: {r}",
+                                              {"kind": "v2-added-source", "source": dict((j["id"], j["src"]) for j in added_jobs)[jid], "observed": r}))
+
     # dynamic probe of the real interpreter on generated programs (+ corpus/replay)
     dyn_jobs = []
     dyn_src = {}
@@ -1655,7 +1870,7 @@ def run(tier, seed, replay=None):
             f.what += f"; real interpreter on events {hit['events']}: {hit['errors'][0]}"
 
     out.coverage.update({
-        "evaluations": len(terms) + len(off_terms) + len(v2_terms) + len(x_terms) + dyn_runs + v1_slide_runs,
+        "evaluations": len(terms) + len(off_terms) + len(v2_terms) + len(x_terms) + len(a_terms) + dyn_runs + v1_slide_runs,
         "distinct_nontrivial": nontrivial,
         "rule": "v1: compiled flow with >=3 control elements (if/while/branch/jump); v2: expanded flow with >=3 jump/fork/"
                 "failure-handler/scope/loop-exit elements; distinct by hash of the Coq case term",
@@ -1671,6 +1886,9 @@ def run(tier, seed, replay=None):
             "v2_files_rejected_by_loader": rejected_files, "v2_flows_rejected_by_loader": rejected_flows,
             "v2_flows_checked": len(v2_terms), "v2_constructs": st2,
             "v2_fragment_programs": n_frag, "v2_expansions_compared_with_model": len(x_terms),
+            "v2_flows_added_at_runtime_checked": len(a_terms), "v2_added_rejected_by_runtime_loader": added_rejected,
+            "v2_added_not_closed": len(added_problems), "v2_added_end_to_end_bot_runs": len(added_e2e),
+            "v2_added_end_to_end_status": {k: v["status"] for k, v in list(added_e2e.items())[:8]},
             "v2_flows_not_closed": len(oracle_problems), "v2_model_false": len(model_false),
             "v2_dynamic_runs": dyn_runs, "v2_dynamic_runs_with_closedness_error": dyn_errors,
             "v2_dynamic_timeouts_or_load_failures": dyn_timeouts, "v2_dynamic_status": dyn_status,
